@@ -65,16 +65,17 @@ def run_case(triple, where):
     try:
         with H.scratch() as d:
             p = H.materialise(d, H.layout_texts(b, l, r, layout), layout, app, where.get('pre_out', False))
-            exp = H.Expect(p, strategy)
+            ignore = tuple(where.get('ignore') or ())
+            exp = H.Expect(p, strategy, ignore)
             info['distinct'] = nbspace.canon(exp.L) != nbspace.canon(exp.R)
-            info['key'] = hash((nbspace.canon(exp.B), nbspace.canon(exp.L), nbspace.canon(exp.R), app, layout, strategy, fault_step, mode, with_out))
+            info['key'] = hash((nbspace.canon(exp.B), nbspace.canon(exp.L), nbspace.canon(exp.R), app, layout, strategy, fault_step, mode, with_out, ignore))
             if not isinstance(exp.main, H.LibResult):
                 info['skipped'] = 'library merge raises' if exp.main is None else 'library result unserialisable'
                 return fails, info
             lib = exp.main
             conflicted = lib.conflicted
             info['conflicted'] = conflicted
-            argv = H.argv_for(app, layout, p, strategy, where.get('explicit', True), where.get('pathname', True), with_out)
+            argv = H.argv_for(app, layout, p, strategy, where.get('explicit', True), where.get('pathname', True), with_out, ignore)
             outname = os.path.basename(p['out'])
             fired, exc, stdout, crashed = False, None, None, None
             damaged = bool(fault_step) and fault_step.split(':')[0] in ('missing', 'corrupt')
@@ -167,6 +168,10 @@ def run_case(triple, where):
                     fails.append(('output-differs-from-library', '%s: output differs from merge_notebooks on the same inputs and strategy: %s' % (desc, diff)))
     except H.HarnessError as e:
         raise common.CheckerDefect('C08 harness: %s' % e)
+    finally:
+        # the command installs its ignore options process-wide (as a command may): the next case starts from the defaults
+        from nbdime.diffing import notebooks as nbd
+        nbd.reset_notebook_differ()
     return fails, info
 
 
@@ -188,6 +193,9 @@ def plan_for_triple(seed, n, ti, steps_mod):
                 'pre_out': rnd.random() < 0.6, 'pathname': rnd.random() < 0.5, 'explicit': rnd.random() < 0.7}
         out.append(dict(base, strategy=list(s1), fault=None))
         out.append(dict(base, strategy=list(s2), fault=None))
+        if layout in ('plain', 'samestat') and rnd.random() < 0.5:
+            # diff-ignore options on the command line: the library merge "for the same options" runs with them in force
+            out.append(dict(base, strategy=list(s1), fault=None, ignore=rnd.choice([['-O'], ['-M'], ['-D'], ['-O', '-D'], ['-S'], ['-M', '-A', '-I']])))
         if app == 'cli' and layout != 'del-both' and rnd.random() < 0.3:
             out.append(dict(base, strategy=list(s2), fault=None, with_out=False, pre_out=False))
         if layout != 'samestat' and rnd.random() < 0.25:
@@ -327,7 +335,8 @@ def run_bounded(res):
         'written to files in a temp dir under a layout cycling through: CLI {plain, samestat (local/remote differ but identical size and mtime), empty-base '
         '(zero-byte), null-base (/dev/null), no-base-arg, del-local, del-remote, del-both (/dev/null placeholders)}, driver {plain, samestat, empty-base, '
         'null-base, del-remote}; pre-existing / absent --out file and presence of the pathname argument (%%P) alternate; per (triple, app): 2 strategy tables (9 fixed + random of the '
-        '4x5x7x2 CLI flag combinations) without fault, plus ONE fault per run at each step in turn: each non-placeholder input file missing, cut off in the middle, or failing to be read (OSError EIO at '
+        '4x5x7x2 CLI flag combinations) without fault -- for half of the plain/samestat layouts a third run adds diff-ignore flags (-S/-O/-A/-M/-I/-D), the library merge then runs with '
+        'the same options in force --, plus ONE fault per run at each step in turn: each non-placeholder input file missing, cut off in the middle, or failing to be read (OSError EIO at '
         'read_notebook / nbformat.read / open), merge_notebooks, 1st and 2nd diff_notebooks, decide_merge_with_diff, apply_decisions (MemoryError / KeyboardInterrupt / RuntimeError), '
         'nbformat.write before writing (ENOSPC), opening the output (ENOSPC), 1st and 2nd write() to it (ENOSPC after half the data), close (EIO), '
         'KeyboardInterrupt after the write; del-both: read of base, os.remove of the output. Real subprocesses (python -m nbdime.nbmergeapp / '
